@@ -42,6 +42,11 @@ Models ==
                              inputs |-> <<InD("x", <<DSym, DFix(2), DFix(4), DFix(5)>>)>>, outputs |-> <<"y">>,
                              inits |-> [w |-> T("f32", <<1, 2, 3, 2>>, <<1, -1, 2, 3, 0, -2, 1, 1, -1, 2, 0, 1>>)]],
                       axis |-> 0, sample |-> <<2, 4, 5>>, oaxes |-> <<0>>],
+    \* plain weights on the LEFT of a batched operand (and a batched operand times plain weights)
+    matmul_left_weights |-> [g |-> [nodes |-> <<Nd("MatMul", <<>>, <<"wl", "x">>, <<"y">>), Nd("MatMul", <<>>, <<"x", "wr">>, <<"z">>)>>,
+                             inputs |-> <<InD("x", <<DSym, DFix(3), DFix(2)>>)>>, outputs |-> <<"y", "z">>,
+                             inits |-> [wl |-> T("f32", <<4, 3>>, <<1, -1, 2, 0, 3, 1, -2, 1, 0, 1, 1, -1>>), wr |-> T("f32", <<2, 2>>, <<1, 2, -1, 3>>)]],
+                      axis |-> 0, sample |-> <<3, 2>>, oaxes |-> <<0, 0>>],
     reshapes |-> [g |-> [nodes |-> <<Nd("Transpose", <<AIs("perm", <<0, 2, 1>>)>>, <<"x">>, <<"t">>), Nd("Squeeze", <<>>, <<"t", "ax">>, <<"s">>),
                                       Nd("Unsqueeze", <<>>, <<"s", "ax2">>, <<"u">>)>>,
                          inputs |-> <<InD("x", <<DSym, DFix(1), DFix(3)>>)>>, outputs |-> <<"t", "s", "u">>,
